@@ -27,6 +27,22 @@ fn own(id: &str, fs: Vec<report::Finding>) -> Vec<report::Finding> {
 pub fn e2e_spec(rng: &mut Rng, screen: &mut Screen) -> RunSpec {
     let (mut spec, _, _) = c03::gen_spec(rng, screen);
     spec.render = true;
+    // a report left by an earlier, larger run may be lying in the working directory
+    if rng.chance(1, 2) {
+        let t = Tables::build();
+        let stale = synth::render(&Synth {
+            entries: synth::gen_entries(rng, &t),
+            iteration: Default::default(),
+        })
+        .report
+        .unwrap_or_default();
+        let mut stale = stale;
+        if rng.chance(1, 2) {
+            stale.extend_from_slice(b"\n### Lines\n- ghost.sol:99\n- ghost.sol:100\n\n\n");
+        }
+        let p = crate::world::join(&spec.world.cwd, "solstat_report.md");
+        spec.world.put_file(&p, stale, crate::world::Fault::None);
+    }
     spec
 }
 
